@@ -281,3 +281,23 @@ func (w *Worker) Script(id string, stmts []Stmt) (*Resp, error) {
 	}
 	return w.Call(map[string]interface{}{"op": "script", "id": id, "stmts": ss})
 }
+
+// FmtRowExact renders a row exactly (no truncation), for content hashes.
+func FmtRowExact(r []Val) string {
+	s := ""
+	for _, v := range r {
+		switch x := v.(type) {
+		case nil:
+			s += "N|"
+		case int64:
+			s += "i" + strconv.FormatInt(x, 10) + "|"
+		case float64:
+			s += fmt.Sprintf("r%016x|", math.Float64bits(x))
+		case string:
+			s += "t" + hex.EncodeToString([]byte(x)) + "|"
+		case []byte:
+			s += "b" + hex.EncodeToString(x) + "|"
+		}
+	}
+	return s + ";"
+}
